@@ -34,9 +34,11 @@ func genCase(t *rapid.T) Case {
 	if vt.Thorough() {
 		maxSteps = 50
 	}
+	// a third of the histories also flush and reopen the table: what a transaction deleted or overwrote must stay so
+	maint := rapid.IntRange(0, 2).Draw(t, "maintenance") == 0
 	return Case{
 		RecoveryType: rapid.IntRange(0, 1).Draw(t, "rtype"),
-		Steps:        tlog.GenSteps(t, p, tlog.GenOpts{MinSteps: 1, MaxSteps: maxSteps, MaxBatch: 4, LeaderIndex: false, Reads: true, ROTxn: true, Maintenance: false, TxnHeavy: true}),
+		Steps:        tlog.GenSteps(t, p, tlog.GenOpts{MinSteps: 1, MaxSteps: maxSteps, MaxBatch: 4, LeaderIndex: false, Reads: true, ROTxn: true, Maintenance: maint, TxnHeavy: true}),
 	}
 }
 
